@@ -76,4 +76,7 @@ def serverCloseFrame (code : Nat) : Bytes := wire true 0 opClose none .short (be
 def HandleResult.refusedWith (r : HandleResult) (c : Conf) (code : Nat) : Prop :=
   r.ret = .closed ∧ r.actions = handleError c code
 
+/-- the configuration used by the non-vacuity examples: the daemon's server endpoint, default read buffer -/
+def exampleConf : Conf := { cbs := daemonCallbacks (fun m => m.length ≠ 1), utf8Valid := fun r => r.all (· < 128), bufSize := 512 }
+
 end Cjet.Ws
